@@ -1901,4 +1901,4 @@ SELFTEST += [
 ]
 LEVEL_TEXT += " Also (R10 = C06.R1): every endpoint scan of the document generator is filtered by the document's version."
 LEVEL_TEXT += " Also (R11 = C02.R6): registration applies the tag policy table to published endpoints only."
-LEVEL_TEXT += " Also (R12 = C07.R12): the extension mode of a tuple of extractors is the merge of the members' modes, decided by interpretation over every assignment of modes to the members. Also (R13 = C07.R1): the declared body content type reaches the metadata of every member of the extractor tuple; (R14 = C01.R2): the handler is selected with the request's own version. Also (R15 = C01.R7): a declaration with a versions range is never served by an unversioned server."
+LEVEL_TEXT += " Also (R12 = C07.R12): the extension mode of a tuple of extractors is the merge of the members' modes, decided by interpretation over every assignment of modes to the members. Also (R13 = C07.R1): the declared body content type reaches the metadata of every member of the extractor tuple; (R14 = C01.R2): the handler is selected with the request's own version. Also (R15 = C01.R7): a declaration with a versions range is never served by an unversioned server. Also (R16 = C05.E2): overlaps_with holds exactly when some version lies in both declared ranges."
